@@ -86,9 +86,10 @@ Print Assumptions C07_nonvacuous.
    dict0 (names X / NS / a / g / b) the file's lines become l0, which read back as the template t of in_grammar16 (all of this
    is computed).  Then for EVERY state-machine model m whose element names are admitted for t (wf_elements16: the names
    carry no '<' '>', no expanded line is blank or spells an unmodelled tag) and EVERY assignment of user tags: the pipeline
-   of smgen.Generate writes exactly the reference expansion, and no line of it contains a generator tag. *)
+   of smgen.Generate writes exactly the reference expansion, and no line of it contains a generator tag.  (no_user_lines: the file
+   has no line with user tags outside blocks -- computed; with such lines a tag without default and without value would stay.) *)
 Theorem C07_tags_consumed_shipped : forall lines l0 t m (a : usertags),
-  shipped16 dict0 lines = Some (l0, t) ->
+  shipped16 dict0 lines = Some (l0, t) -> no_user_lines t = true ->
   wf_elements16 t (elements_of_model m) = true ->
   generate_file m dict0 a lines = Some (ref16 (elements_of_model m) t)
   /\ forallb no_generator_tag (flat_map (ref_item16 (elements_of_model m)) t) = true.
